@@ -761,8 +761,12 @@ fn slot_index(text: &str) -> Option<u64> {
 
 fn wait_supervised(child: &mut std::process::Child, slots: Option<&Path>, limit: Duration) -> ChildEnd {
     use std::os::unix::process::ExitStatusExt;
-    let mut last: Vec<(String, Instant)> = Vec::new();
-    let started = Instant::now();
+    // Stalls are measured in the supervisor's own polling ticks (100 ms each), not in wall-clock
+    // time: if the whole machine is paused (VM snapshot, suspend) both processes stop together and
+    // no ticks accumulate, whereas a clock-based limit would see a two-minute "stall".
+    let limit_ticks = (limit.as_millis() / 100).max(10) as u64;
+    let mut last: Vec<(String, u64)> = Vec::new();
+    let mut tick = 0u64;
     loop {
         match child.try_wait() {
             Ok(Some(st)) => {
@@ -776,19 +780,19 @@ fn wait_supervised(child: &mut std::process::Child, slots: Option<&Path>, limit:
             Err(e) => return ChildEnd::Crashed(format!("wait failed: {}", e)),
         }
         std::thread::sleep(Duration::from_millis(100));
+        tick += 1;
         match slots {
             Some(p) => {
-                let now = Instant::now();
                 let cur = read_slots(p);
                 if last.len() < cur.len() {
-                    last.resize(cur.len(), (String::new(), now));
+                    last.resize(cur.len(), (String::new(), tick));
                 }
                 let mut stalled = Vec::new();
                 let mut any_stalled = false;
                 for (i, c) in cur.iter().enumerate() {
                     if last[i].0 != *c {
-                        last[i] = (c.clone(), now);
-                    } else if !c.is_empty() && c != "done" && now.duration_since(last[i].1) > limit {
+                        last[i] = (c.clone(), tick);
+                    } else if !c.is_empty() && c != "done" && tick - last[i].1 > limit_ticks {
                         any_stalled = true;
                         if let Some(idx) = slot_index(c) {
                             stalled.push(idx);
@@ -802,7 +806,7 @@ fn wait_supervised(child: &mut std::process::Child, slots: Option<&Path>, limit:
                 }
             }
             None => {
-                if started.elapsed() > limit {
+                if tick > limit_ticks {
                     let _ = child.kill();
                     let _ = child.wait();
                     return ChildEnd::Stalled(Vec::new());
